@@ -5,7 +5,7 @@
 (* which diagnostic category, and what the printed object must say about   *)
 (* the game in the input.                                                  *)
 (***************************************************************************)
-EXTENDS Cfr, Efg, Contract, Strategy
+EXTENDS Cfr, Efg, Contract, Strategy, JsonDsl
 
 \* ------------------------------------------------------------------ options
 MethodOf(m) == IF m = "full" THEN "Full" ELSE IF m = "sampled" THEN "Sampled" ELSE "External"
@@ -52,6 +52,21 @@ Categories(parser, class, doc) ==
        ELSE IF class = "json-contract" THEN {"game-error"}
        ELSE IF class = "efg" THEN (IF EfgFaults(doc) = {"gambit-error"} THEN {"auto-error"} ELSE EfgFaults(doc))
        ELSE {"auto-error"}
+
+\* a JSON document as written (JsonDsl.tla): [cats |-> admissible diagnostic categories, solve |-> solving admissible].
+\* A document of the grammar must be solved (or refused as game-error when its tree is outside the library contract);
+\* a document outside the language must be refused as json-error; a document that uses what the documentation leaves
+\* open (JsonDsl: unlisted members, null infoset, repeated names) may be solved - with the meaning JState gives it - or
+\* refused as json-error.  Under auto-detection a document the JSON reader refuses goes to the Gambit reader, which
+\* refuses every JSON document: auto-error.
+JsonAdmissible(parser, v, scale, wscale) ==
+  LET r == JState(v, scale, wscale)
+      must == IF ~r.ok THEN {"json-error"} ELSE IF ViolatedRules(r.t) # {} THEN {"game-error"} ELSE {}
+      open == r.ok /\ ~JStrict(v)
+      viaJson == [cats |-> must \cup (IF open THEN {"json-error"} ELSE {}), solve |-> must = {}]
+  IN IF parser = "json" THEN viaJson
+     ELSE IF parser = "gambit" THEN [cats |-> {"gambit-error"}, solve |-> FALSE]
+     ELSE [cats |-> {IF x = "json-error" THEN "auto-error" ELSE x : x \in viaJson.cats}, solve |-> viaJson.solve]
 
 \* ------------------------------------------------------------------ the printed object
 \* all information sets of player p in a raw tree, with their action lists (single-action ones too)
